@@ -1,6 +1,7 @@
 """C16 (partial): writer exclusivity is one atomic step (R-ATOM); version assignment, live-count
 increment and threshold advance share one critical section (R-LOCKCOV); tokens are tied to
 their manager (R-OWN + witnesses, incl. the per-thread cache)."""
+from vlib import fixtures
 from rules import own, sync
 from vlib import witness
 from vlib.mir import Fn
@@ -21,6 +22,7 @@ def need(fx, fid):
 
 def run(ctx):
     fx = ctx.facts("default")
+    fixtures.run(ctx, ['atom', 'lockcov'])
     # clause 1: check-then-act on atomics anywhere in the two files
     n = 0
     nat = 0
